@@ -142,7 +142,7 @@ class SetupRiemannProblem(object):
         pBc, dBc = self.bottom_compression_arrays[:2]
         pBe, dBe = self.bottom_expansion_arrays[:2]
         dB = append(bottom_flow_angle-dBc[::-1], bottom_flow_angle-dBe[::-1])
-        dT = append(bottom_flow_angle+dTe, bottom_flow_angle + dTc)
+        dT = append(self.thetaT_rad + dTe, self.thetaT_rad + dTc)
         left_ds_bound = max(min(dB), min(dT)) 
         right_ds_bound = min(max(dT), max(dB)) 
         ds = linspace(left_ds_bound, right_ds_bound, int(1e4))
